@@ -46,17 +46,20 @@ def le32 (a b c d : Nat) : Nat := a + 256 * b + 65536 * c + 16777216 * d
 
 def fromClipboard (data : List Nat) : Clip :=
   match data with
-  | [] => .panic
+  | [] => .none                            -- `data.len() < 17`
   | t :: _ =>
-    if t ≠ 0 then .none
+    if data.length < 17 ∨ t ≠ 0 then .none
     else match data.drop 9 with
       | w0 :: w1 :: w2 :: w3 :: h0 :: h1 :: h2 :: h3 :: cells =>
         let w := le32 w0 w1 w2 w3
         let h := le32 h0 h1 h2 h3
-        match clipCells (w * h) cells with
-        | some cs => .ok w h cs
-        | none => .panic
-      | _ => .panic
+        -- sizes the data cannot back are rejected before the layer is allocated (`checked_mul` cannot fail for
+        -- two 32-bit factors on a 64-bit `usize`)
+        if w * h = 0 ∨ w * h > 2147483647 ∨ cells.length / 14 < w * h then .none
+        else match clipCells (w * h) cells with
+          | some cs => .ok w h cs
+          | none => .panic
+      | _ => .none
 
 /-! ### IcyDraw `load_buffer` (icy_draw.rs), both cell decoders: 8-bit cells are bytes, 32-bit cells go through
     `char::from_u32` and fail the load when rejected -/
